@@ -6,6 +6,7 @@
 (* and outputs is not assumed (that part of the contract is judged on the  *)
 (* hook traces by Tr_Control.tla).                                         *)
 (*   In{cmd0, valid}   Out{cls}   Exit{rc}   Undisturbed{a, b}             *)
+(*   Limited{cmds, answered, inSet}                                        *)
 (***************************************************************************)
 EXTENDS Integers, Sequences, TLC, Json, IOUtils
 CONSTANT DIAG
@@ -36,7 +37,12 @@ TUndisturbed == /\ Ev("Undisturbed")
                 /\ Chk("OptionChangeDoesNotDisturbRunningSearch", Tr[l].a = Tr[l].b, <<Tr[l].cmds, Tr[l].a, Tr[l].b>>)
                 /\ Chk("OptionChangeTakesEffectAfterwards", Tr[l].effect, Tr[l].cmds)
                 /\ UNCHANGED <<nGo, nReady, nBest, nReadyok, malformed>>
+\* a search with a limit of its own answers without 'stop', wherever the limit stands among the sub-commands of 'go'
+TLimited == /\ Ev("Limited")
+            /\ Chk("LimitedGoAnswersByItself", Tr[l].answered, Tr[l].cmds)
+            /\ Chk("AnswerAmongSearchmoves", Tr[l].inSet, <<Tr[l].cmds, Tr[l].best>>)
+            /\ UNCHANGED <<nGo, nReady, nBest, nReadyok, malformed>>
 TInit == l = 1 /\ nGo = 0 /\ nReady = 0 /\ nBest = 0 /\ nReadyok = 0 /\ malformed = 0
-TNext == TReset \/ TIn \/ TOut \/ TExit \/ TUndisturbed
+TNext == TReset \/ TIn \/ TOut \/ TExit \/ TUndisturbed \/ TLimited
 Accepted == TLCGet("stats").diameter - 1 = Len(Tr) \/ (PrintT(<<"REJECTED_AT", TLCGet("stats").diameter>>) /\ FALSE)
 =============================================================================
